@@ -610,6 +610,33 @@ pub fn expand(line: &str) -> Option<(String, Box<dyn FnOnce(&mut Ctx) -> String>
                             }
                             ctx.tag("stored_value_checked");
                         }
+                        // set-authority instructions: the key in the `new_…` slot is what the setting's OWN field holds
+                        // afterwards, and nothing else of the account moved (a setter that stores into another role's
+                        // field hands that role over; one that stores nothing leaves the old authority in charge)
+                        if let Some(newkey) = slots.iter().find(|(n, _)| n.starts_with("new_")).map(|(_, key)| *key) {
+                            let field: Option<Pubkey> = match name.as_str() {
+                                "SetFeeAuthority" => WhirlpoolsConfig::try_deserialize(&mut &d[..]).ok().map(|c| c.fee_authority),
+                                "SetCollectProtocolFeesAuthority" => WhirlpoolsConfig::try_deserialize(&mut &d[..]).ok().map(|c| c.collect_protocol_fees_authority),
+                                "SetRewardEmissionsSuperAuthority" => WhirlpoolsConfig::try_deserialize(&mut &d[..]).ok().map(|c| c.reward_emissions_super_authority),
+                                "SetRewardAuthority" | "SetRewardAuthorityBySuperAuthority" => Whirlpool::try_deserialize(&mut &d[..]).ok().map(|w| w.reward_authority()),
+                                "SetDelegatedFeeAuthority" => AdaptiveFeeTier::try_deserialize(&mut &d[..]).ok().map(|t| t.delegated_fee_authority),
+                                "SetInitializePoolAuthority" => AdaptiveFeeTier::try_deserialize(&mut &d[..]).ok().map(|t| t.initialize_pool_authority),
+                                "SetConfigExtensionAuthority" => WhirlpoolsConfigExtension::try_deserialize(&mut &d[..]).ok().map(|e| e.config_extension_authority),
+                                "SetTokenBadgeAuthority" => WhirlpoolsConfigExtension::try_deserialize(&mut &d[..]).ok().map(|e| e.token_badge_authority),
+                                _ => None,
+                            };
+                            if let Some(got) = field {
+                                if got != newkey {
+                                    ctx.viol(format!("C04 {} succeeded but the setting's authority field holds {} instead of the new authority {}", name, got, newkey));
+                                }
+                                let d0 = before.data(tkey);
+                                let diff: Vec<usize> = (0..d.len().min(d0.len())).filter(|i| d[*i] != d0[*i]).collect();
+                                if d.len() != d0.len() || diff.last().map(|l| l - diff[0] >= 32).unwrap_or(false) {
+                                    ctx.viol(format!("C04 {} changed more of the account than one authority field", name));
+                                }
+                                ctx.tag("stored_authority_checked");
+                            }
+                        }
                         if name == "SetAdaptiveFeeConstants" || name == "SetPresetAdaptiveFeeConstants" {
                             let bt = toks(&bound_c);
                             if bt[0] == "afc" {
